@@ -62,7 +62,7 @@ RuleInit(cfg) ==
    since |-> [s \in St |-> 0], online |-> {},
    pub |-> [s \in St |-> NoView], pre |-> [s \in St |-> NoView],
    grant |-> [s \in St |-> NoGrant],
-   offered |-> [s \in St |-> {}], rogue |-> FALSE, unread |-> 0,
+   offered |-> [s \in St |-> {}], selfOffer |-> [s \in St |-> FALSE], selfSeen |-> -1, envSince |-> 0, rogue |-> FALSE, unread |-> 0,
    pas |-> NoPass,
    visit |-> [s \in St |-> NoVisit],
    recvPrev |-> [s \in St |-> -1], recvCur |-> [s \in St |-> -1],
@@ -164,7 +164,11 @@ OnTx(rs, e) ==
       accepting == cls = "Holder" /\ g.pending /\ ~rs.rogue /\ rs.unread = 0 /\ ~IsResp(b)
       \* the predecessor registered when the offer was made or when it was taken (the view may
       \* change inside the accepting poll through telegrams handled before the token)
-      c11a == << <<"C11.accept", accepting => (g.inring /\ (g.just \/ rs.pub[s].ps \in g.froms))>> >>
+      \* a token that bears the station's own address as source is never an offer (somebody else uses the address):
+      \* the station must not start to act as token holder on it
+      selfTaken == rs.selfOffer[s] /\ ~rs.rogue /\ rs.unread = 0 /\ cls \in {"Holder", "None"} /\ ~IsResp(b)
+      c11a == << <<"C11.accept", accepting => (g.inring /\ (g.just \/ rs.pub[s].ps \in g.froms))>>,
+                 <<"C11.accept", ~selfTaken>> >>
       (* ---- token specifics *)
       d == IF k = "token" THEN Da(b) ELSE -1
       passOn == k = "token" /\ d # s
@@ -224,7 +228,7 @@ OnTx(rs, e) ==
               \o (IF judged /\ sresp THEN <<"C12.reply.state">> ELSE <<>>)
       (* ---- state update *)
       rs1 == [rs EXCEPT !.last = [by |-> s, t0 |-> e.t0, t1 |-> e.t1, b |-> b, app |-> rs.appsent[s]],
-                        !.rogue = @ \/ rs.unread > 0]
+                        !.rogue = @ \/ rs.unread > 0, !.selfOffer[s] = FALSE, !.selfSeen = -1]
       \* heard watch: any transmission by someone else within tsl after a pass
       rs2 == IF rs.hw.by # -1 /\ rs.hw.by # s /\ gap < cfg.tsl /\ ~rs.hw.heard THEN [rs1 EXCEPT !.hw.heard = TRUE] ELSE rs1
       rs3 == IF cls = "Holder" /\ g.pending /\ ~IsResp(b) THEN [rs2 EXCEPT !.grant[s].pending = FALSE, !.offered[s] = {}] ELSE rs2
@@ -266,13 +270,17 @@ OnEnvTx(rs, e) ==
       \* (a token offered again to a station that has not acted on the previous offer is a retry, not rogue)
       rogue == rs.rogue \/ (rs.holder \in St /\ ~isReply /\ ~rs.grant[rs.holder].pending)
       rs1 == [rs EXCEPT !.last = [by |-> e.st, t0 |-> e.t0, t1 |-> e.t1, b |-> b, app |-> FALSE], !.rogue = rogue,
+                        !.selfSeen = IF k = "token" /\ Sa(b) \in St /\ rs.unread = 0 THEN Sa(b) ELSE -1,
+                        !.envSince = @ + 1,
                         !.goodTokens = 0,
                         !.hw = IF @.by # -1 /\ gap < rs.cfg.tsl /\ ~@.heard THEN [@ EXCEPT !.heard = TRUE] ELSE @]
       rs2 == IF k # "token" THEN rs1
              ELSE LET d == Da(b) sa == Sa(b)
                       w == RotWitness(rs1, sa, d, e.t0)
-                  IN IF d \in St
-                     THEN NewVisit([w EXCEPT !.holder = d, !.lastTokDa = d, !.offered[d] = @ \cup {sa}, !.grant[d] = Offer(rs, d, sa)],
+                  IN IF d \in St /\ sa = d
+                     THEN [w EXCEPT !.lastTokDa = d, !.selfOffer[d] = (rs.holder # d)]
+                     ELSE IF d \in St
+                     THEN NewVisit([w EXCEPT !.holder = d, !.lastTokDa = d, !.offered[d] = @ \cup {sa}, !.grant[d] = Offer(rs, d, sa), !.selfOffer[d] = FALSE],
                                    d, FALSE, FALSE, e.t1)
                      ELSE [w EXCEPT !.holder = d, !.lastTokDa = d]
       sresp == k = "data" /\ ~IsReq(b) /\ last.by \in St /\ IsStatusReq(last.b) /\ ~last.app
@@ -293,17 +301,23 @@ OnPoll(rs, e) ==
       cadOk == ~rs.cadBad
       rs1 == [rs EXCEPT !.pub[s] = e.post, !.pre[s] = e.pre, !.appsent[s] = FALSE,
                         !.unread = IF "unread" \in DOMAIN e THEN e.unread ELSE 0,
-                        !.hw = IF hwme THEN NoWatch ELSE @]
+                        !.hw = IF hwme THEN NoWatch ELSE @,
+                        !.selfSeen = IF rs.selfSeen = s THEN -1 ELSE @, !.envSince = 0]
       wasReached == rs.reached
       nowAgree == AllAgree(rs1)
       stable == (wasReached /\ s \in rs.online) => Agree(rs1, s)
       rs2 == TryReach(rs1, e.t)
       late == ConvActive(rs) /\ ~rs2.reached /\ e.t > Deadline(rs)
       single == cfg.mode = "single"
-      cs == (IF ~rs.garbled /\ ~single THEN << <<"C11.heard", heardOk>> >> ELSE <<>>) \o (IF judged /\ ~single THEN << <<"C12.cadence", cadOk>> >> ELSE <<>>)
+      \* the only telegram since the station's last poll is a token bearing its own address as source: nobody handed
+      \* anything over - the ring view must not change
+      unread0 == rs.unread = 0 /\ (IF "unread" \in DOMAIN e THEN e.unread = 0 ELSE TRUE)
+      ownOk == (rs.selfSeen = s /\ rs.envSince = 1 /\ unread0 /\ e.pre.in_ring) => (e.pre.las = e.post.las /\ e.pre.ns = e.post.ns /\ e.pre.ps = e.post.ps)
+      cs == (IF ~rs.garbled THEN << <<"C11.own", ownOk>> >> ELSE <<>>)
+            \o (IF ~rs.garbled /\ ~single THEN << <<"C11.heard", heardOk>> >> ELSE <<>>) \o (IF judged /\ ~single THEN << <<"C12.cadence", cadOk>> >> ELSE <<>>)
             \o (IF judged THEN << <<"C12.ready", readyOk>> >> ELSE <<>>)
             \o << <<ConvProp(rs) \o ".stable", stable>>, <<ConvProp(rs) \o ".converge", ~late>> >>
-      hits == (IF judged /\ ~single /\ hwme THEN <<"C11.heard">> ELSE <<>>)
+      hits == (IF judged /\ ~single /\ hwme THEN <<"C11.heard">> ELSE <<>>) \o (IF rs.selfSeen = s /\ rs.envSince = 1 /\ unread0 /\ e.pre.in_ring THEN <<"C11.own">> ELSE <<>>)
               \o (IF judged /\ becomesReady THEN <<"C12.ready">> ELSE <<>>)
               \o (IF wasReached /\ s \in rs.online THEN <<ConvProp(rs) \o ".stable">> ELSE <<>>)
               \o (IF ~wasReached /\ rs2.reached THEN <<ConvProp(rs) \o ".converge">> ELSE <<>>)
@@ -371,7 +385,7 @@ RuleStep(rs, e) ==
     [] OTHER              -> R("ok", NoSig, rs, <<>>)
 
 AllClauses == {"C01.overlap", "C01.permission", "C01.tsdr", "C01.tid", "C01.Reply", "C01.Holder", "C01.PassSupervision", "C01.Claim", "C01.None",
-               "C11.accept", "C11.max3", "C11.immediate", "C11.drop", "C11.patience", "C11.heard",
+               "C11.accept", "C11.max3", "C11.immediate", "C11.drop", "C11.patience", "C11.heard", "C11.own",
                "C12.range", "C12.one", "C12.cadence", "C12.successor", "C12.reply.state", "C12.reply.when", "C12.ready",
                "C13.hold",
                "C15.holder", "C15.rr", "C15.done", "C15.match", "C15.form", "C15.reply", "C15.timeout",
